@@ -1417,6 +1417,11 @@ func genC09(g *G, sc *Scenario, tier string) {
 			if g.P(0.3) {
 				ops = append(ops, advance())
 			}
+			if g.P(0.2) {
+				// a transaction (POST /transactions, as a JavaScript transform issues it too) writes to the dataset while
+				// the sync is open: written since its start, so live after its completion
+				ops = append(ops, Op{K: "txnpost", DS: "ds", Ents: ents()})
+			}
 		}
 		if g.P(0.8) {
 			eid := id
